@@ -58,8 +58,9 @@ def logF (c : Cell) : Fld :=
   match c.l with | 0 => ⟨.mg, c.slot % 8, 1⟩ | 1 => ⟨.w2, 5, 1⟩ | 2 => ⟨.w1, 0, 1⟩ | _ => ⟨.w2, 8, 1⟩
 def pinF (c : Cell) : Fld :=
   match c.l with | 0 => ⟨.mp, c.slot % 8, 1⟩ | 1 => ⟨.w2, 7, 1⟩ | 2 => ⟨.w1, 1, 1⟩ | _ => ⟨.w2, 15, 1⟩
+/-- (side LOS spec: one 2-bit field per 4 KiB page; every slot lies in page 1 of its 4-page byte) -/
 def losF (c : Cell) : Fld :=
-  match c.l with | 0 => ⟨.ml, 2 * (c.slot % 4), 2⟩ | 1 => ⟨.w2, 8, 2⟩ | 2 => ⟨.w1, 4, 2⟩ | _ => ⟨.w2, 22, 2⟩
+  match c.l with | 0 => ⟨.ml, 2, 2⟩ | 1 => ⟨.w2, 8, 2⟩ | 2 => ⟨.w1, 4, 2⟩ | _ => ⟨.w2, 22, 2⟩
 def ptrLoc (c : Cell) : Loc := if c.l == 0 || c.l == 2 then .w0 else .w1
 /-- `forwarding_bits_offset_in_forwarding_pointer` -/
 def oneStepShift (c : Cell) : Option Nat := match c.l with | 1 => some 0 | 3 => some 56 | _ => none
